@@ -127,6 +127,11 @@ Section NotePerf.
     [snd ts / np_shift_per c; snd ts mod np_shift_per c; snd on - np_min_pitch c; snd vel - 1;
      d / np_dur_per c; d mod np_dur_per c].
 
+  (* default_event_label: _encode_event of (TIME_SHIFT 0, NOTE_ON 60, VELOCITY 1, DURATION 1) *)
+  Definition np_default_event : npevent :=
+    ((EV_TIME_SHIFT, 0), (EV_NOTE_ON, 60), (EV_VELOCITY, 1), (EV_DURATION, 1)).
+  Definition np_default_label : list Z := np_encode_event np_default_event.
+
   Definition np_label (es : list npevent) (p : Z) : option (list Z) :=
     e <- py_nth es p ;; Some (np_encode_event e).
 
